@@ -108,11 +108,23 @@ func commitCallback(r *Report) *ssa.Function {
 		return nil
 	}
 	var cb *ssa.Function
-	withClosures(fn, func(f *ssa.Function) {
-		if len(callsTo(f, false, "(*column.Txn).commitUpdates")) > 0 {
-			cb = f
+	// the function handed to the latch loop (a literal, a named helper or a method value) …
+	for _, c := range callsToDeep(fn, false, "(*column.Txn).rangeWrite") {
+		cc, _, _ := callCommon(c.Inner)
+		if len(cc.Args) > 1 {
+			if f := asFunc(cc.Args[1]); f != nil && len(callsToDeep(originOf(f), false, "(*column.Txn).commitUpdates")) > 0 {
+				cb = originOf(f)
+			}
 		}
-	})
+	}
+	// … or, failing that, whichever nested function applies the updates
+	if cb == nil {
+		withClosures(fn, func(f *ssa.Function) {
+			if len(callsTo(f, false, "(*column.Txn).commitUpdates")) > 0 {
+				cb = f
+			}
+		})
+	}
 	if cb == nil {
 		r.Unresolve("the per-block commit callback (caller of commitUpdates inside Txn.commit)")
 	}
@@ -126,29 +138,60 @@ func isRecorderAppend(cc *ssa.CallCommon) bool {
 	return calleeIs(cc, "(*commit.Log).Append")
 }
 
+// commitEvents enumerates every path through the commit callback (helpers inlined, both edges of
+// every condition) and hands the visitor the sequence of apply/append events of the path.
+func commitEvents(cb *ssa.Function, visit func(ev []pathEvent) bool) (bool, string) {
+	cfg := pathCfg{leaf: func(ssa.Value) (string, bool, bool) { return "", false, false }, classify: func(ins ssa.Instruction) string {
+		if cc, isDefer, isGo := callCommon(ins); cc != nil && !isDefer && !isGo {
+			switch {
+			case isLoggerAppend(cc):
+				return "logger"
+			case isRecorderAppend(cc):
+				return "recorder"
+			case calleeIs(cc, "(*column.Txn).commitUpdates"):
+				return "upd"
+			case calleeIs(cc, "(*column.Txn).commitMarkers"):
+				return "mrk"
+			}
+		}
+		return ""
+	}}
+	return evalPathsDeep(cb, cfg, func(_ map[string]bool, ev []pathEvent, _ *ssa.Return) bool { return visit(ev) })
+}
+
 // ruleCommitOrder: C11.order, C06.emitorder
 func ruleCommitOrder(r *Report, withC11, withC06 bool) {
 	cb := commitCallback(r)
 	if cb == nil {
 		return
 	}
-	upd := callsTo(cb, false, "(*column.Txn).commitUpdates")
-	mrk := callsTo(cb, false, "(*column.Txn).commitMarkers")
+	mrk := callsToDeep(cb, false, "(*column.Txn).commitMarkers")
 	if len(mrk) == 0 {
 		r.Unresolve("call of commitMarkers in the commit callback")
 		return
 	}
 	if withC11 {
 		h := r.Rule("C11.order", "P", "within one block's critical section the column updates are applied before the row markers, so a row updated and deleted by one transaction ends with every presence bit, index bit and table entry cleared (buffers of different columns carry no mutual order; applying the delete first lets the put resurrect data on a dead row)", 1)
-		ok := true
-		for _, m := range mrk {
-			for _, u := range upd {
-				if !canReach(u, m) || canReach(m, u) {
-					ok = false
+		ok, why := commitEvents(cb, func(ev []pathEvent) bool {
+			seenM, seenU := false, false
+			for _, e := range ev {
+				switch e.Name {
+				case "upd":
+					if seenM {
+						return false
+					}
+					seenU = true
+				case "mrk":
+					if !seenU {
+						return false
+					}
+					seenM = true
 				}
 			}
-		}
-		h.Check(ok, fnName(cb), r.P.InstrPos(mrk[0]), "commitUpdates ≺ commitMarkers", "row markers are applied before the column updates of the same block: a put and a delete of one row in one transaction leave the value, its index bit and its table entries behind for the next occupant of the offset")
+			return true
+		})
+		_ = why
+		h.Check(ok, fnName(cb), r.P.InstrPos(mrk[0].Inner), "commitUpdates ≺ commitMarkers on every path", "row markers are applied before the column updates of the same block: a put and a delete of one row in one transaction leave the value, its index bit and its table entries behind for the next occupant of the offset")
 	}
 	if withC06 {
 		h := r.Rule("C06.emitorder", "P", "a block's commit is emitted (logger, recorder) only after its updates and markers were applied, i.e. after merges were rewritten to puts", 2)
@@ -156,24 +199,40 @@ func ruleCommitOrder(r *Report, withC11, withC06 bool) {
 		if len(apps) == 0 {
 			h.Unknown(fnName(cb)+"/appends", r.P.Pos(cb.Pos()), "no Append call recognised in the commit callback")
 		}
+		done := map[string]bool{}
 		for _, a := range apps {
-			ok := true
-			for _, x := range append(append([]ssa.Instruction{}, upd...), mrk...) {
-				if a.Site == x || canReach(a.Site, x) {
-					ok = false
-				}
-			}
-			for _, u := range upd {
-				if !precedes(u, a.Site) {
-					ok = false
-				}
-			}
 			cc, _, _ := callCommon(a.Inner)
 			kind := "logger"
 			if isRecorderAppend(cc) {
 				kind = "recorder"
 			}
-			h.Check(ok, fnName(cb)+"/"+kind, r.P.InstrPos(a.Inner), "apply ≺ append", "the commit is appended before the block's updates/markers are applied: consumers receive merge deltas or miss the row changes")
+			if done[kind] {
+				continue
+			}
+			done[kind] = true
+			ok, _ := commitEvents(cb, func(ev []pathEvent) bool {
+				seenApp, seenU := false, false
+				for _, e := range ev {
+					switch e.Name {
+					case "upd":
+						if seenApp {
+							return false
+						}
+						seenU = true
+					case "mrk":
+						if seenApp {
+							return false
+						}
+					case kind:
+						if !seenU {
+							return false
+						}
+						seenApp = true
+					}
+				}
+				return true
+			})
+			h.Check(ok, fnName(cb)+"/"+kind, r.P.InstrPos(a.Inner), "apply ≺ append on every path", "the commit is appended before the block's updates/markers are applied: consumers receive merge deltas or miss the row changes")
 		}
 	}
 }
@@ -320,7 +379,7 @@ func ruleEmitOnce(r *Report) {
 	if rw != nil {
 		n, inLoop := 0, false
 		var site ssa.Instruction
-		withClosures(rw, func(f *ssa.Function) {
+		for _, f := range deepFuncs(rw) {
 			allInstrs(f, func(ins ssa.Instruction) {
 				cc, _, _ := callCommon(ins)
 				if cc == nil || cc.StaticCallee() != nil || cc.IsInvoke() {
@@ -329,13 +388,24 @@ func ruleEmitOnce(r *Report) {
 				if _, isB := cc.Value.(*ssa.Builtin); isB {
 					return
 				}
+				if asFunc(cc.Value) != nil {
+					return
+				}
 				n++
 				site = ins
 				if reachAvoiding(ins.Block(), ins.Block(), nil, nil) {
 					inLoop = true
 				}
 			})
-		})
+			// a helper that invokes the callback must itself be called once, outside any loop
+			if f != rw && f.Parent() == nil && len(userCallIn(f)) > 0 {
+				if ci := uniqueCallOf(f); ci == nil {
+					inLoop = true
+				} else if b := ci.Block(); reachAvoiding(b, b, nil, nil) {
+					inLoop = true
+				}
+			}
+		}
 		h.Check(n == 1 && !inLoop, "(*column.Txn).rangeWrite/once", r.P.InstrPos(site), "one callback invocation per dirty block", fmt.Sprintf("rangeWrite invokes its callback %d times per dirty block (loop: %v)", n, inLoop))
 	}
 }
@@ -369,7 +439,7 @@ func ruleDirty(r *Report) {
 				return methodOn(cc, "github.com/kelindar/bitmap", "Bitmap", "Set")
 			}) {
 				cc, _, _ := callCommon(s)
-				if fr, isF := fieldOf(cc.Args[0]); isF && fr.Struct == "column.Txn" && fr.Field == "dirty" && sameExpr(cc.Args[1], cf.Params[0]) {
+				if fr, isF := fieldOf(cc.Args[0]); isF && fr.Struct == "column.Txn" && fr.Field == "dirty" && sameExpr(cc.Args[1], cbParam(cf, 0)) {
 					setsDirty = true
 				}
 			}
@@ -701,36 +771,40 @@ func ruleRelease(r *Report) {
 	h := r.Rule("C02.release", "P+A", "every offset reserved by a transaction is released when it does not commit: a failing insert frees its offset and leaves no insert marker; rollback clears, under the exclusive collection mutex, the fill bits of the transaction's insert markers before recounting", 4)
 	ins := r.Anchor("(*column.Txn).insert")
 	if ins != nil {
-		next := callsTo(ins, false, "(*column.Collection).next")
-		free := callsTo(ins, false, "(*column.Collection).free")
-		var marker ssa.Instruction
-		for _, c := range callsTo(ins, false, "(*commit.Buffer).PutOperation") {
-			cc, _, _ := callCommon(c)
-			if op, ok := constInt(cc.Args[1]); ok && op == opInsert {
-				marker = c
+		next := callsToDeep(ins, false, "(*column.Collection).next")
+		free := callsToDeep(ins, false, "(*column.Collection).free")
+		var marker *deepCall
+		for _, c := range callsToDeep(ins, false, "(*commit.Buffer).PutOperation") {
+			c := c
+			cc, _, _ := callCommon(c.Inner)
+			if n, _ := normE(cc.Args[1], c.Env, false); n != nil {
+				if op, ok := constInt(n); ok && op == opInsert {
+					marker = &c
+				}
 			}
 		}
 		switch {
 		case len(next) != 1 || len(free) == 0 || marker == nil:
 			h.Unknown("(*column.Txn).insert/shape", r.P.Pos(ins.Pos()), "next/free/insert-marker calls not recognised")
 		default:
+			nextV, _ := next[0].Inner.(ssa.Value)
 			// free(idx) with idx = next(), on the error edge of the row callback
-			fcc, _, _ := callCommon(free[0])
-			sameIdx := sameExpr(fcc.Args[1], next[0].(*ssa.Call))
-			onErr := edgeGuarded(free[0].Block(), func(c ssa.Value) (bool, bool) {
+			fcc, _, _ := callCommon(free[0].Inner)
+			sameIdx := sameE(fcc.Args[1], free[0].Env, nextV, next[0].Env, 0)
+			onErr := edgeGuarded(free[0].Site.Block(), func(c ssa.Value) (bool, bool) {
 				_, nonNil, ok := nilTest(c)
 				return ok, nonNil
 			})
-			h.Check(sameIdx && onErr, "(*column.Txn).insert/free", r.P.InstrPos(free[0]), "failing insert frees the offset it reserved", "the failing-insert path does not free exactly the offset that was reserved")
+			h.Check(sameIdx && onErr, "(*column.Txn).insert/free", r.P.InstrPos(free[0].Inner), "failing insert frees the offset it reserved", "the failing-insert path does not free exactly the offset that was reserved")
 			// marker must not be written on a path that continues to the failing exit
 			leak := false
 			for _, f := range free {
-				if canReach(marker, f) {
+				if marker.Site == f.Site || canReach(marker.Site, f.Site) {
 					leak = true
 				}
 			}
-			mcc, _, _ := callCommon(marker)
-			h.Check(!leak && sameExpr(mcc.Args[2], next[0].(*ssa.Call)), "(*column.Txn).insert/marker", r.P.InstrPos(marker), "insert marker written only after the row callback succeeded", "the insert marker is buffered before the row callback ran: when the callback fails the freed offset still carries an insert marker (a committing transaction re-creates the row; a rollback cannot tell which offsets to release)")
+			mcc, _, _ := callCommon(marker.Inner)
+			h.Check(!leak && sameE(mcc.Args[2], marker.Env, nextV, next[0].Env, 0), "(*column.Txn).insert/marker", r.P.InstrPos(marker.Inner), "insert marker written only after the row callback succeeded", "the insert marker is buffered before the row callback ran: when the callback fails the freed offset still carries an insert marker (a committing transaction re-creates the row; a rollback cannot tell which offsets to release)")
 		}
 	}
 	// KF3: what the failed row callback queued must not survive in a transaction that commits
@@ -1149,7 +1223,7 @@ func ruleRowDelete(r *Report) {
 			}
 			for _, a := range callsTo(f2, false, "(*column.column).Apply") {
 				acc, _, _ := callCommon(a)
-				if sameExpr(acc.Args[0], f2.Params[0]) {
+				if sameExpr(acc.Args[0], cbParam(f2, 0)) {
 					ok = true
 					pos = a
 				}
@@ -1225,13 +1299,13 @@ func ruleRegister(r *Report) {
 		if fn == nil {
 			continue
 		}
-		di := callsTo(fn, false, "(*column.columns).DeleteIndex")
-		dc := callsTo(fn, false, "(*column.columns).DeleteColumn")
+		di := callsToDeep(fn, false, "(*column.columns).DeleteIndex")
+		dc := callsToDeep(fn, false, "(*column.columns).DeleteColumn")
 		ok := len(di) == 1 && len(dc) == 1
 		if ok {
-			c1, _, _ := callCommon(di[0])
-			c2, _, _ := callCommon(dc[0])
-			ok = sameExpr(c1.Args[2], fn.Params[1]) && sameExpr(c2.Args[1], fn.Params[1])
+			c1, _, _ := callCommon(di[0].Inner)
+			c2, _, _ := callCommon(dc[0].Inner)
+			ok = di[0].same(c1.Args[2], fn.Params[1]) && dc[0].same(c2.Args[1], fn.Params[1])
 		}
 		h.Check(ok, name, r.P.Pos(fn.Pos()), "removed from the target's list and from the registry", "dropping does not remove the computed column from both its target's list and the registry")
 	}
@@ -1369,10 +1443,10 @@ func ruleSingleSection(r *Report) {
 		ok = asFunc(cc.Args[1]) == cb
 	}
 	h.Check(ok, "(*column.Txn).commit/one-loop", r.P.Pos(commit.Pos()), "one rangeWrite whose callback applies the block", "commit does not apply a block inside a single latch loop")
-	both := len(callsTo(cb, false, "(*column.Txn).commitMarkers")) == 1 && len(callsTo(cb, false, "(*column.Txn).commitUpdates")) == 1
+	both := len(callsToDeep(cb, false, "(*column.Txn).commitMarkers")) == 1 && len(callsToDeep(cb, false, "(*column.Txn).commitUpdates")) == 1
 	h.Check(both, fnName(cb)+"/both-steps", r.P.Pos(cb.Pos()), "markers and updates in one callback", "row markers and column updates of a block are not applied by the same callback (two critical sections: a reader can see the row between them)")
 	if rwf := r.Anchor("(*column.Txn).rangeWrite"); rwf != nil {
-		withClosures(rwf, func(f *ssa.Function) {
+		for _, f := range deepFuncs(rwf) {
 			var acq, rel, cbs []ssa.Instruction
 			allInstrs(f, func(ins ssa.Instruction) {
 				cc, _, _ := callCommon(ins)
@@ -1391,12 +1465,16 @@ func ruleSingleSection(r *Report) {
 				cbs = append(cbs, c)
 			}
 			if len(acq) == 0 {
-				return
+				continue
 			}
 			lops, _ := L.classifyLock(&acq[0].(*ssa.Call).Call, f)
 			ok := len(acq) == 1 && len(rel) == 1 && len(cbs) == 1 && lops.Mode == 'W' && precedes(acq[0], cbs[0]) && precedes(cbs[0], rel[0])
-			h.Check(ok, fnName(f)+"/bracket", r.P.InstrPos(acq[0]), "Lock ≺ callback ≺ Unlock, once each", "the latch loop does not bracket exactly one callback invocation with one exclusive acquire and one release")
-		})
+			owner := fnName(f)
+			if isHelper(f) {
+				owner = "(*column.Txn).rangeWrite$1" // the latch loop's body, wherever it was moved
+			}
+			h.Check(ok, owner+"/bracket", r.P.InstrPos(acq[0]), "Lock ≺ callback ≺ Unlock, once each", "the latch loop does not bracket exactly one callback invocation with one exclusive acquire and one release")
+		}
 	}
 }
 
